@@ -1,2 +1,1417 @@
-/* ds_buf.h - TODO */
-static void ds_buf_case(vh_rng_t *rng) { (void)rng; vh_inconclusive("not-implemented"); }
+/* ds_buf.h - ares_buf_t vs. a byte vector with a read cursor and an optional tag.
+ *
+ * Model (all indices absolute = counted from the first byte ever appended):
+ *   A[0..alen)  every byte appended (set_length/replace edit the unread tail)
+ *   c           read cursor, t tag (-1 = none), base = how many leading bytes the buffer has
+ *               physically discarded (ares_buf_reclaim, explicit or implied by growth)
+ * The buffer's physical position is c-base; base is not predictable from the interface (growth
+ * reclaims "if there is insufficient space"), so it is *observed* through get_position after every
+ * operation and must be monotone and never pass the cursor or an active tag.
+ *
+ * Oracle after every operation: len == alen-c; peek shows exactly A[c..alen); with a tag,
+ * tag_length == c-t and tag_fetch shows exactly A[t..c); without, tag_fetch is NULL.  Every fetch /
+ * consume beyond the end fails and leaves all of that unchanged; tag_rollback puts the cursor back on
+ * the tag; writes to const buffers fail; finish_bin/finish_str hand back A[c..alen).
+ */
+
+#define DSB_MAX (1 << 17)
+static unsigned char dsb_A[DSB_MAX + 4096];
+static size_t        dsb_alen, dsb_c, dsb_base;
+static long          dsb_t;
+static int           dsb_const;
+static int           dsb_allocated; /* a dynamic buffer has storage once something was appended */
+static int           dsb_text;      /* 0 binary, 1 text, 2 mostly text */
+static unsigned char dsb_D[DSB_MAX + 4096]; /* model of the side buffer used by fetch_bytes_into_buf */
+static size_t        dsb_dlen;
+static const char   *dsb_site = "init";
+static int           dsb_blank_nodup; /* this case may combine ALLOW_BLANK with NO_DUPLICATES in split */
+static unsigned char dsb_scratch[DSB_MAX + 8192]; /* destination for fetches, large enough for any request */
+
+static void dsb_viol(const char *rule, const char *fmt, ...)
+{
+  char    key[96];
+  char    buf[1024];
+  va_list ap;
+  va_start(ap, fmt);
+  vsnprintf(buf, sizeof(buf), fmt, ap);
+  va_end(ap);
+  snprintf(key, sizeof(key), "ds:buf:%s:%s", rule, dsb_site);
+  vh_violation(key, "%s", buf);
+}
+
+static unsigned char dsb_byte(vh_rng_t *rng)
+{
+  static const char alpha[] = "abcdeXYZ0123456789  ,,;;::\t\n\n\r=/.-_";
+  if (dsb_text == 0 || (dsb_text == 2 && vh_chance(rng, 1, 10))) {
+    return (unsigned char)vh_below(rng, 256);
+  }
+  return (unsigned char)alpha[vh_below(rng, sizeof(alpha) - 1)];
+}
+
+static int dsb_is_ws(unsigned char ch, int lf)
+{
+  return ch == '\r' || ch == '\t' || ch == ' ' || ch == '\v' || ch == '\f' || (lf && ch == '\n');
+}
+
+static int dsb_isprint(const unsigned char *p, size_t n)
+{
+  size_t i;
+  for (i = 0; i < n; i++) {
+    if (p[i] < 0x20 || p[i] > 0x7e) {
+      return 0;
+    }
+  }
+  return 1;
+}
+
+static size_t dsb_first_diff(const unsigned char *a, const unsigned char *b, size_t n)
+{
+  size_t i;
+  for (i = 0; i < n; i++) {
+    if (a[i] != b[i]) {
+      return i;
+    }
+  }
+  return n;
+}
+
+/* the after-every-operation comparison */
+static int dsb_sync(ares_buf_t *buf, const char *what)
+{
+  size_t               plen = 777, pos, tl = 555;
+  const unsigned char *p;
+  size_t               rem = dsb_alen - dsb_c;
+
+  if (ares_buf_len(buf) != rem) {
+    dsb_viol("len", "%s: len=%zu model=%zu (alen %zu cursor %zu)", what, ares_buf_len(buf), rem, dsb_alen, dsb_c);
+    return 0;
+  }
+  p = ares_buf_peek(buf, &plen);
+  if (plen != rem || (rem && p == NULL)) {
+    dsb_viol("peek", "%s: peek gives %p/%zu, model has %zu unread bytes", what, (const void *)p, plen, rem);
+    return 0;
+  }
+  if (rem && memcmp(p, dsb_A + dsb_c, rem) != 0) {
+    size_t d = dsb_first_diff(p, dsb_A + dsb_c, rem);
+    dsb_viol("content", "%s: unread byte %zu of %zu is 0x%02x, model 0x%02x", what, d, rem, p[d], dsb_A[dsb_c + d]);
+    return 0;
+  }
+  pos = ares_buf_get_position(buf);
+  if (dsb_const) {
+    if (pos != dsb_c) {
+      dsb_viol("position", "%s: const buffer position %zu, model cursor %zu", what, pos, dsb_c);
+      return 0;
+    }
+  } else {
+    size_t nb, maxb = (dsb_t >= 0 && (size_t)dsb_t < dsb_c) ? (size_t)dsb_t : dsb_c;
+    if (pos > dsb_c || (nb = dsb_c - pos) < dsb_base) {
+      dsb_viol("position", "%s: position %zu with %zu bytes consumed overall and %zu known discarded", what, pos, dsb_c,
+               dsb_base);
+      return 0;
+    }
+    if (nb > maxb) {
+      dsb_viol("reclaim-past-tag", "%s: buffer discarded %zu leading bytes but the tag is at %ld (cursor %zu)", what, nb, dsb_t,
+               dsb_c);
+      return 0;
+    }
+    if (nb != dsb_base) {
+      vh_count("buf_reclaims_observed");
+      if (dsb_t >= 0) {
+        vh_count("buf_reclaims_with_tag");
+      }
+    }
+    dsb_base = nb;
+  }
+  if (dsb_t >= 0) {
+    if (ares_buf_tag_length(buf) != dsb_c - (size_t)dsb_t) {
+      dsb_viol("tag-length", "%s: tag_length=%zu model=%zu", what, ares_buf_tag_length(buf), dsb_c - (size_t)dsb_t);
+      return 0;
+    }
+    p = ares_buf_tag_fetch(buf, &tl);
+    /* a buffer that never held data has no storage to point into: NULL with length 0 is all it can say */
+    if ((p == NULL && dsb_c != (size_t)dsb_t) || tl != dsb_c - (size_t)dsb_t) {
+      dsb_viol("tag-fetch", "%s: tag_fetch gives %p/%zu, model tag..cursor is %zu bytes", what, (const void *)p, tl,
+               dsb_c - (size_t)dsb_t);
+      return 0;
+    }
+    if (tl && memcmp(p, dsb_A + dsb_t, tl) != 0) {
+      size_t d = dsb_first_diff(p, dsb_A + dsb_t, tl);
+      dsb_viol("tag-content", "%s: tagged byte %zu of %zu is 0x%02x, model 0x%02x", what, d, tl, p[d], dsb_A[dsb_t + d]);
+      return 0;
+    }
+  } else {
+    if (ares_buf_tag_fetch(buf, &tl) != NULL || ares_buf_tag_length(buf) != 0) {
+      dsb_viol("tag-phantom", "%s: no tag in the model but tag_fetch/tag_length report one", what);
+      return 0;
+    }
+  }
+  return 1;
+}
+
+/* model append (dynamic buffers only) */
+static void dsb_model_append(const unsigned char *p, size_t n)
+{
+  memcpy(dsb_A + dsb_alen, p, n);
+  dsb_alen += n;
+  if (n) {
+    dsb_allocated = 1;
+  }
+}
+
+/* a write must succeed on a dynamic buffer and fail on a const one */
+static int dsb_write_status(ares_status_t st, const char *what)
+{
+  if (st == ARES_ENOMEM) {
+    return -1;
+  }
+  if (dsb_const) {
+    if (st == ARES_SUCCESS) {
+      dsb_viol("const-write", "%s: write to a const buffer succeeded", what);
+    }
+    return 0;
+  }
+  if (st != ARES_SUCCESS) {
+    dsb_viol("write-rejected", "%s: write to a dynamic buffer returned %d", what, (int)st);
+    return 0;
+  }
+  return 1;
+}
+
+/* ---- reference splitter ---- */
+typedef struct {
+  size_t off, len; /* into the input */
+} dsb_sec_t;
+#define DSB_MAXSEC 4200
+
+static int dsb_memeq_ci(const unsigned char *a, const unsigned char *b, size_t n)
+{
+  size_t i;
+  for (i = 0; i < n; i++) {
+    unsigned char x = a[i], y = b[i];
+    if (x >= 'A' && x <= 'Z') {
+      x = (unsigned char)(x + 32);
+    }
+    if (y >= 'A' && y <= 'Z') {
+      y = (unsigned char)(y + 32);
+    }
+    if (x != y) {
+      return 0;
+    }
+  }
+  return 1;
+}
+
+static size_t dsb_ref_split(const unsigned char *in, size_t n, const unsigned char *delims, size_t ndel, unsigned flags,
+                            size_t max_sections, dsb_sec_t *out)
+{
+  size_t pos = 0, cnt = 0;
+  int    first = 1;
+  while (pos < n) {
+    size_t start, end, k;
+    if (first) {
+      start = pos;
+    } else if (flags & ARES_BUF_SPLIT_KEEP_DELIMS) {
+      start = pos; /* section starts with its delimiter */
+      pos++;
+    } else {
+      pos++;
+      start = pos;
+    }
+    first = 0;
+    if (max_sections && cnt >= max_sections - 1) {
+      pos = n; /* last permitted section takes the rest */
+    } else {
+      while (pos < n && memchr(delims, in[pos], ndel) == NULL) {
+        pos++;
+      }
+    }
+    end = pos;
+    if (flags & ARES_BUF_SPLIT_LTRIM) {
+      while (start < end && dsb_is_ws(in[start], 1)) {
+        start++;
+      }
+    }
+    if (flags & ARES_BUF_SPLIT_RTRIM) {
+      while (end > start && dsb_is_ws(in[end - 1], 1)) {
+        end--;
+      }
+    }
+    if (end == start && !(flags & ARES_BUF_SPLIT_ALLOW_BLANK)) {
+      continue;
+    }
+    if (flags & ARES_BUF_SPLIT_NO_DUPLICATES) {
+      int dup = 0;
+      for (k = 0; k < cnt && !dup; k++) {
+        if (out[k].len == end - start) {
+          dup = (flags & ARES_BUF_SPLIT_CASE_INSENSITIVE) ? dsb_memeq_ci(in + out[k].off, in + start, end - start)
+                                                          : memcmp(in + out[k].off, in + start, end - start) == 0;
+        }
+      }
+      if (dup) {
+        continue;
+      }
+    }
+    if (cnt < DSB_MAXSEC) {
+      out[cnt].off = start;
+      out[cnt].len = end - start;
+    }
+    cnt++;
+  }
+  return cnt;
+}
+
+static dsb_sec_t dsb_secs[DSB_MAXSEC];
+
+/* split `target` (whose unread bytes are in[0..n)) and compare against the reference */
+static void dsb_do_split(ares_buf_t *target, const unsigned char *in, size_t n, vh_rng_t *rng, const char *what)
+{
+  static const char *const delimsets[] = { ",", ";", " ", ", ", ",;:", " \t", "\n", ":=" };
+  const char              *ds          = delimsets[vh_below(rng, 8)];
+  size_t                   ndel        = strlen(ds);
+  unsigned                 flags       = 0;
+  size_t                   maxsec      = vh_chance(rng, 1, 2) ? 0 : vh_below(rng, 5);
+  int                      as_str      = vh_chance(rng, 1, 3);
+  size_t                   want, k;
+  ares_array_t            *arr = NULL;
+  ares_status_t            st;
+
+  if (vh_chance(rng, 1, 3)) {
+    flags |= ARES_BUF_SPLIT_ALLOW_BLANK;
+  }
+  if (vh_chance(rng, 1, 3) && (!(flags & ARES_BUF_SPLIT_ALLOW_BLANK) || dsb_blank_nodup)) {
+    flags |= ARES_BUF_SPLIT_NO_DUPLICATES;
+    if (vh_chance(rng, 1, 2)) {
+      flags |= ARES_BUF_SPLIT_CASE_INSENSITIVE;
+    }
+  }
+  if (vh_chance(rng, 1, 3)) {
+    flags |= ARES_BUF_SPLIT_RTRIM;
+  }
+  if (vh_chance(rng, 1, 5)) {
+    /* documented as incompatible with LTRIM; the delimiter-only section question (see report) is
+     * avoided by pairing it with ALLOW_BLANK */
+    flags |= ARES_BUF_SPLIT_KEEP_DELIMS | ARES_BUF_SPLIT_ALLOW_BLANK;
+    if (!dsb_blank_nodup) {
+      flags &= ~(unsigned)(ARES_BUF_SPLIT_NO_DUPLICATES | ARES_BUF_SPLIT_CASE_INSENSITIVE);
+    }
+  } else if (vh_chance(rng, 1, 3)) {
+    flags |= ARES_BUF_SPLIT_LTRIM;
+  }
+  want = dsb_ref_split(in, n, (const unsigned char *)ds, ndel, flags, maxsec, dsb_secs);
+  if (want > DSB_MAXSEC) {
+    return; /* not comparable; leave the target untouched */
+  }
+  vh_count(as_str ? "buf_split_str_array" : "buf_split");
+
+  if (!as_str) {
+    st = ares_buf_split(target, (const unsigned char *)ds, ndel, (ares_buf_split_t)flags, maxsec, &arr);
+    if (st == ARES_ENOMEM) {
+      return;
+    }
+    if (st != ARES_SUCCESS || arr == NULL) {
+      dsb_viol("split-rejected", "%s: split(delims '%s', flags 0x%x, max %zu) returned %d", what, ds, flags, maxsec, (int)st);
+      return;
+    }
+    if (ares_array_len(arr) != want) {
+      dsb_viol("split-count", "%s: split(delims '%s', flags 0x%x, max %zu) of %zu bytes gives %zu sections, reference %zu",
+               what, ds, flags, maxsec, n, ares_array_len(arr), want);
+    }
+    for (k = 0; k < want && !vh_case_viol; k++) {
+      ares_buf_t         **bp = (ares_buf_t **)ares_array_at(arr, k);
+      size_t               sl = 0;
+      const unsigned char *sp = bp ? ares_buf_peek(*bp, &sl) : NULL;
+      if (bp == NULL || sl != dsb_secs[k].len || (sl && memcmp(sp, in + dsb_secs[k].off, sl) != 0)) {
+        dsb_viol("split-section", "%s: split(delims '%s', flags 0x%x, max %zu): section %zu has %zu bytes, reference %zu", what,
+                 ds, flags, maxsec, k, sl, dsb_secs[k].len);
+      }
+    }
+    ares_array_destroy(arr);
+  } else {
+    int printable = 1, blank = 0;
+    for (k = 0; k < want; k++) {
+      if (!dsb_isprint(in + dsb_secs[k].off, dsb_secs[k].len)) {
+        printable = 0;
+      }
+      if (dsb_secs[k].len == 0) {
+        blank = 1;
+      }
+    }
+    st = ares_buf_split_str_array(target, (const unsigned char *)ds, ndel, (ares_buf_split_t)flags, maxsec, &arr);
+    if (st == ARES_ENOMEM) {
+      return;
+    }
+    if (!printable) {
+      /* sections are validated to be printable strings */
+      if (st == ARES_SUCCESS) {
+        dsb_viol("split-str-unprintable", "%s: split_str_array accepted a section that is not printable ASCII", what);
+        ares_array_destroy(arr);
+      }
+      return;
+    }
+    if (st != ARES_SUCCESS || arr == NULL) {
+      if (blank) {
+        dsb_viol("split-str-blank-rejected",
+                 "%s: split_str_array(delims '%s', flags 0x%x incl. ALLOW_BLANK, max %zu) returned %d on input with an empty "
+                 "section",
+                 what, ds, flags, maxsec, (int)st);
+      } else {
+        dsb_viol("split-rejected", "%s: split_str_array(delims '%s', flags 0x%x, max %zu) returned %d", what, ds, flags, maxsec,
+                 (int)st);
+      }
+      return;
+    }
+    if (ares_array_len(arr) != want) {
+      dsb_viol("split-count", "%s: split_str_array(delims '%s', flags 0x%x, max %zu) gives %zu strings, reference %zu", what, ds,
+               flags, maxsec, ares_array_len(arr), want);
+    }
+    for (k = 0; k < want && !vh_case_viol; k++) {
+      char **sp = (char **)ares_array_at(arr, k);
+      if (sp == NULL || *sp == NULL || strlen(*sp) != dsb_secs[k].len ||
+          memcmp(*sp, in + dsb_secs[k].off, dsb_secs[k].len) != 0) {
+        dsb_viol("split-section", "%s: split_str_array(delims '%s', flags 0x%x, max %zu): string %zu differs from reference",
+                 what, ds, flags, maxsec, k);
+      }
+    }
+    ares_array_destroy(arr);
+  }
+}
+
+enum {
+  DSB_APPEND = 1,
+  DSB_APPEND_BYTE,
+  DSB_APPEND_BE16,
+  DSB_APPEND_BE32,
+  DSB_APPEND_STR,
+  DSB_APPEND_NUM_DEC,
+  DSB_APPEND_NUM_HEX,
+  DSB_APPEND_START,
+  DSB_APPEND_BIG,
+  DSB_HEXDUMP,
+  DSB_FETCH_BYTES,
+  DSB_FETCH_BE16,
+  DSB_FETCH_BE32,
+  DSB_FETCH_DUP,
+  DSB_FETCH_INTO_BUF,
+  DSB_FETCH_STR_DUP,
+  DSB_CONSUME,
+  DSB_PEEK_BYTE,
+  DSB_TAG,
+  DSB_TAG_ROLLBACK,
+  DSB_TAG_CLEAR,
+  DSB_TAG_FETCH_BYTES,
+  DSB_TAG_FETCH_STRING,
+  DSB_TAG_FETCH_STRDUP,
+  DSB_TAG_FETCH_CONSTBUF,
+  DSB_SET_LENGTH,
+  DSB_SET_POSITION,
+  DSB_EXCURSION,
+  DSB_RECLAIM,
+  DSB_CONSUME_WS,
+  DSB_CONSUME_NONWS,
+  DSB_CONSUME_CHARSET,
+  DSB_CONSUME_UNTIL_CHARSET,
+  DSB_CONSUME_UNTIL_SEQ,
+  DSB_CONSUME_LINE,
+  DSB_BEGINS_WITH,
+  DSB_SPLIT_COPY,
+  DSB_SPLIT_SELF,
+  DSB_REPLACE,
+  DSB_FINISH,
+  DSB_NKINDS
+};
+
+static const char *const dsb_opname[] = { "?",
+                                          "append",
+                                          "append_byte",
+                                          "append_be16",
+                                          "append_be32",
+                                          "append_str",
+                                          "append_num_dec",
+                                          "append_num_hex",
+                                          "append_start",
+                                          "append_big",
+                                          "hexdump",
+                                          "fetch_bytes",
+                                          "fetch_be16",
+                                          "fetch_be32",
+                                          "fetch_bytes_dup",
+                                          "fetch_bytes_into_buf",
+                                          "fetch_str_dup",
+                                          "consume",
+                                          "peek_byte",
+                                          "tag",
+                                          "tag_rollback",
+                                          "tag_clear",
+                                          "tag_fetch_bytes",
+                                          "tag_fetch_string",
+                                          "tag_fetch_strdup",
+                                          "tag_fetch_constbuf",
+                                          "set_length",
+                                          "set_position",
+                                          "position_excursion",
+                                          "reclaim",
+                                          "consume_whitespace",
+                                          "consume_nonwhitespace",
+                                          "consume_charset",
+                                          "consume_until_charset",
+                                          "consume_until_seq",
+                                          "consume_line",
+                                          "begins_with",
+                                          "split_copy",
+                                          "split_self",
+                                          "replace",
+                                          "finish" };
+
+/* read-side failure: status must not be success, nothing moves (checked by the sync that follows) */
+static void dsb_expect_fail(ares_status_t st, const char *what, const char *why)
+{
+  if (st == ARES_SUCCESS) {
+    dsb_viol("overrun-accepted", "%s: succeeded although %s", what, why);
+  }
+}
+
+static void ds_buf_case(vh_rng_t *rng)
+{
+  ares_buf_t    *buf  = NULL;
+  ares_buf_t    *dest = NULL;
+  unsigned char *constmem = NULL;
+  int            nops = vh_chance(rng, 1, 8) ? vh_range(rng, 150, 700) : vh_range(rng, 6, 110);
+  int            bias = vh_range(rng, 0, 3); /* 0 balanced, 1 producer-heavy, 2 stream (append, tag, consume), 3 parser */
+  int            i;
+  char           what[128];
+  unsigned char  tmp[4200];
+  vh_sb_t        sb = { 0 };
+
+  dsb_alen = dsb_c = dsb_base = 0;
+  dsb_t                       = -1;
+  dsb_allocated               = 0;
+  dsb_dlen                    = 0;
+  dsb_site                    = "init";
+  dsb_const                   = vh_chance(rng, 1, 5);
+  dsb_text                    = vh_chance(rng, 1, 4) ? 0 : vh_chance(rng, 1, 4) ? 2 : 1;
+  dsb_blank_nodup             = vh_chance(rng, 1, 12);
+
+  if (dsb_const) {
+    size_t n = vh_chance(rng, 1, 6) ? (size_t)vh_range(rng, 300, 3000) : (size_t)vh_range(rng, 1, 120);
+    size_t k;
+    /* exact-size heap block: any read past the end is an ASan report */
+    constmem = (unsigned char *)malloc(n);
+    if (constmem == NULL) {
+      vh_inconclusive("oom");
+      return;
+    }
+    for (k = 0; k < n; k++) {
+      constmem[k] = dsb_byte(rng);
+    }
+    memcpy(dsb_A, constmem, n);
+    dsb_alen = n;
+    buf      = ares_buf_create_const(constmem, n);
+    if (ares_buf_create_const(constmem, 0) != NULL || ares_buf_create_const(NULL, 4) != NULL) {
+      vh_violation("ds:buf:create-const-misuse", "create_const accepted NULL data or zero length");
+    }
+  } else {
+    buf = ares_buf_create();
+  }
+  dest = ares_buf_create();
+  if (buf == NULL || dest == NULL) {
+    vh_inconclusive("oom");
+    goto cleanup;
+  }
+  if (vh_want_sample()) {
+    vh_sb_printf(&sb, "{\"container\":\"buf\",\"const\":%d,\"text\":%d,\"bias\":%d,\"ops\":[", dsb_const, dsb_text, bias);
+  }
+  if (!dsb_sync(buf, "create")) {
+    goto cleanup;
+  }
+
+  for (i = 0; i < nops && !vh_case_viol; i++) {
+    int           op;
+    int           r   = vh_range(rng, 0, 99);
+    size_t        rem = dsb_alen - dsb_c;
+    ares_status_t st;
+    int           w;
+    size_t        n, k;
+    int           wr_w = dsb_const ? 6 : bias == 1 ? 55 : bias == 3 ? 25 : 38;
+
+    if (r < wr_w) {
+      static const int wr[] = { DSB_APPEND,         DSB_APPEND,         DSB_APPEND,    DSB_APPEND_BYTE, DSB_APPEND_BE16,
+                                DSB_APPEND_BE32,    DSB_APPEND_STR,     DSB_APPEND_STR, DSB_APPEND_NUM_DEC,
+                                DSB_APPEND_NUM_HEX, DSB_APPEND_START,   DSB_APPEND_BIG, DSB_HEXDUMP };
+      op                    = wr[vh_below(rng, sizeof(wr) / sizeof(wr[0]))];
+    } else if (r < wr_w + 30) {
+      static const int rd[] = { DSB_FETCH_BYTES, DSB_FETCH_BYTES,   DSB_FETCH_BE16, DSB_FETCH_BE32, DSB_FETCH_DUP, DSB_FETCH_INTO_BUF,
+                                DSB_FETCH_STR_DUP, DSB_CONSUME,     DSB_CONSUME,    DSB_PEEK_BYTE };
+      op                    = rd[vh_below(rng, sizeof(rd) / sizeof(rd[0]))];
+      if (bias == 2 && vh_chance(rng, 1, 2)) {
+        op = DSB_CONSUME;
+      }
+    } else if (r < wr_w + 48) {
+      static const int tg[] = { DSB_TAG,
+                                DSB_TAG,
+                                DSB_TAG_ROLLBACK,
+                                DSB_TAG_ROLLBACK,
+                                DSB_TAG_CLEAR,
+                                DSB_TAG_FETCH_BYTES,
+                                DSB_TAG_FETCH_STRING,
+                                DSB_TAG_FETCH_STRDUP,
+                                DSB_TAG_FETCH_CONSTBUF };
+      op                    = tg[vh_below(rng, sizeof(tg) / sizeof(tg[0]))];
+    } else if (r < wr_w + 56) {
+      static const int ps[] = { DSB_SET_LENGTH, DSB_SET_POSITION, DSB_EXCURSION, DSB_RECLAIM, DSB_RECLAIM };
+      op                    = ps[vh_below(rng, sizeof(ps) / sizeof(ps[0]))];
+    } else {
+      static const int pr[] = { DSB_CONSUME_WS,       DSB_CONSUME_NONWS, DSB_CONSUME_CHARSET, DSB_CONSUME_UNTIL_CHARSET,
+                                DSB_CONSUME_UNTIL_SEQ, DSB_CONSUME_LINE, DSB_BEGINS_WITH,     DSB_SPLIT_COPY,
+                                DSB_SPLIT_COPY,       DSB_SPLIT_SELF,    DSB_REPLACE };
+      op                    = pr[vh_below(rng, sizeof(pr) / sizeof(pr[0]))];
+      if (op == DSB_SPLIT_SELF && !vh_chance(rng, 1, 3)) {
+        op = DSB_SPLIT_COPY;
+      }
+    }
+    if (dsb_alen > DSB_MAX - 40000) {
+      break;
+    }
+    OP(op);
+    dsb_site = dsb_opname[op];
+    if (sb.b && i < 40) {
+      vh_sb_printf(&sb, "%s%d", i ? "," : "", op);
+    }
+    snprintf(what, sizeof(what), "op#%d %s (alen %zu cursor %zu tag %ld base %zu%s)", i, dsb_opname[op], dsb_alen, dsb_c, dsb_t,
+             dsb_base, dsb_const ? " const" : "");
+    vh_count(op <= DSB_HEXDUMP ? "buf_writes" : "buf_reads_and_moves");
+
+    switch (op) {
+      case DSB_APPEND:
+      case DSB_APPEND_BIG:
+        n = op == DSB_APPEND_BIG ? (size_t)vh_range(rng, 200, 4100) : (size_t)vh_range(rng, 0, 48);
+        for (k = 0; k < n; k++) {
+          tmp[k] = dsb_byte(rng);
+        }
+        st = ares_buf_append(buf, n ? tmp : (vh_chance(rng, 1, 2) ? tmp : NULL), n);
+        if (n == 0) {
+          /* appending nothing is documented to succeed trivially; a const buffer is not changed by it */
+          break;
+        }
+        w = dsb_write_status(st, what);
+        if (w < 0) {
+          vh_inconclusive("oom");
+          goto cleanup;
+        }
+        if (w > 0) {
+          dsb_model_append(tmp, n);
+        }
+        break;
+      case DSB_APPEND_BYTE:
+        tmp[0] = dsb_byte(rng);
+        w      = dsb_write_status(ares_buf_append_byte(buf, tmp[0]), what);
+        if (w > 0) {
+          dsb_model_append(tmp, 1);
+        }
+        break;
+      case DSB_APPEND_BE16:
+        {
+          unsigned short v = (unsigned short)vh_below(rng, 65536);
+          tmp[0]           = (unsigned char)(v >> 8);
+          tmp[1]           = (unsigned char)(v & 0xff);
+          w                = dsb_write_status(ares_buf_append_be16(buf, v), what);
+          if (w > 0) {
+            dsb_model_append(tmp, 2);
+          }
+          break;
+        }
+      case DSB_APPEND_BE32:
+        {
+          unsigned int v = (unsigned int)vh_rand64(rng);
+          tmp[0]         = (unsigned char)(v >> 24);
+          tmp[1]         = (unsigned char)(v >> 16);
+          tmp[2]         = (unsigned char)(v >> 8);
+          tmp[3]         = (unsigned char)v;
+          w              = dsb_write_status(ares_buf_append_be32(buf, v), what);
+          if (w > 0) {
+            dsb_model_append(tmp, 4);
+          }
+          break;
+        }
+      case DSB_APPEND_STR:
+        n = (size_t)vh_range(rng, 1, 40);
+        for (k = 0; k < n; k++) {
+          unsigned char ch = dsb_byte(rng);
+          tmp[k]           = ch ? ch : 'n';
+        }
+        tmp[n] = 0;
+        w      = dsb_write_status(ares_buf_append_str(buf, (const char *)tmp), what);
+        if (w > 0) {
+          dsb_model_append(tmp, n);
+        }
+        break;
+      case DSB_APPEND_NUM_DEC:
+      case DSB_APPEND_NUM_HEX:
+        {
+          size_t num = vh_chance(rng, 1, 3) ? vh_below(rng, 20) : (size_t)(vh_rand64(rng) >> vh_below(rng, 64));
+          size_t len = vh_chance(rng, 1, 2) ? 0 : (size_t)vh_range(rng, 1, 12);
+          char   full[40];
+          char   out[40];
+          size_t fl;
+          /* reference: len==0 -> plain number; else the low `len` digits, zero padded */
+          if (op == DSB_APPEND_NUM_DEC) {
+            snprintf(full, sizeof(full), "%030zu", num);
+          } else {
+            snprintf(full, sizeof(full), "%030zX", num);
+          }
+          fl = strlen(full);
+          if (len == 0) {
+            const char *q = full;
+            while (*q == '0' && q[1]) {
+              q++;
+            }
+            snprintf(out, sizeof(out), "%s", q);
+          } else {
+            snprintf(out, sizeof(out), "%s", full + fl - len);
+          }
+          st = op == DSB_APPEND_NUM_DEC ? ares_buf_append_num_dec(buf, num, len) : ares_buf_append_num_hex(buf, num, len);
+          snprintf(what + strlen(what), sizeof(what) - strlen(what), " num=%zu len=%zu", num, len);
+          if (op == DSB_APPEND_NUM_DEC && !dsb_const && st != ARES_SUCCESS && st != ARES_ENOMEM &&
+              num >= (size_t)10000000000000000000ULL) {
+            dsb_viol("num-dec-20-digits", "%s: append_num_dec of a 20-digit number returned %d", what, (int)st);
+            break;
+          }
+          w = dsb_write_status(st, what);
+          if (w > 0) {
+            dsb_model_append((const unsigned char *)out, strlen(out));
+          }
+          break;
+        }
+      case DSB_APPEND_START:
+        {
+          size_t         want = vh_chance(rng, 1, 8) ? 0 : (size_t)vh_range(rng, 1, vh_chance(rng, 1, 6) ? 3000 : 64);
+          size_t         got  = want;
+          unsigned char *p    = ares_buf_append_start(buf, &got);
+          if (want == 0 || dsb_const) {
+            if (p != NULL) {
+              dsb_viol(dsb_const ? "const-write" : "append-start-zero", "%s: append_start(%zu) returned a buffer", what, want);
+            }
+            break;
+          }
+          if (p == NULL) {
+            vh_inconclusive("oom");
+            goto cleanup;
+          }
+          if (got < want) {
+            dsb_viol("append-start-short", "%s: append_start(%zu) offers only %zu bytes", what, want, got);
+            break;
+          }
+          dsb_allocated = 1;
+          /* the whole offered region must be writable (ASan checks); then commit a prefix */
+          memset(p, 0xA5, got);
+          n = vh_chance(rng, 1, 5) ? 0 : vh_chance(rng, 1, 4) ? want : (size_t)vh_below(rng, (uint32_t)want + 1);
+          for (k = 0; k < n; k++) {
+            p[k]   = dsb_byte(rng);
+            tmp[k] = p[k];
+          }
+          ares_buf_append_finish(buf, n);
+          dsb_model_append(tmp, n);
+          break;
+        }
+      case DSB_HEXDUMP:
+        {
+          /* dump the same data into a scratch buffer and into the buffer under test: the text appended
+           * must be identical, and have one line per 16 bytes */
+          ares_buf_t *scratch = ares_buf_create();
+          size_t      sl      = 0, lines = 0;
+          n = vh_chance(rng, 1, 6) ? 0 : (size_t)vh_range(rng, 1, 70);
+          for (k = 0; k < n; k++) {
+            tmp[k] = (unsigned char)vh_below(rng, 256);
+          }
+          if (scratch == NULL || ares_buf_hexdump(scratch, tmp, n) != ARES_SUCCESS) {
+            ares_buf_destroy(scratch);
+            vh_inconclusive("oom");
+            goto cleanup;
+          }
+          {
+            const unsigned char *sp = ares_buf_peek(scratch, &sl);
+            for (k = 0; k < sl; k++) {
+              if (sp[k] == '\n') {
+                lines++;
+              }
+            }
+            if (lines != (n + 15) / 16 || (sl && sp[sl - 1] != '\n')) {
+              dsb_viol("hexdump-shape", "%s: hexdump of %zu bytes has %zu lines", what, n, lines);
+            }
+            st = ares_buf_hexdump(buf, tmp, n);
+            if (n) {
+              w = dsb_write_status(st, what);
+              if (w > 0) {
+                dsb_model_append(sp, sl);
+              }
+            }
+          }
+          ares_buf_destroy(scratch);
+          break;
+        }
+      case DSB_FETCH_BYTES:
+        n = vh_chance(rng, 1, 5) ? rem + 1 + vh_below(rng, 4) : vh_chance(rng, 1, 10) ? 0 : rem ? 1 + vh_below(rng, (uint32_t)(rem > 64 ? 64 : rem)) : 1;
+        st = ares_buf_fetch_bytes(buf, dsb_scratch, n);
+        if (n == 0 || n > rem) {
+          dsb_expect_fail(st, what, n ? "more bytes were requested than remain" : "zero bytes were requested");
+          break;
+        }
+        if (st != ARES_SUCCESS) {
+          dsb_viol("fetch-rejected", "%s: fetch of %zu of %zu available bytes returned %d", what, n, rem, (int)st);
+          break;
+        }
+        if (memcmp(dsb_scratch, dsb_A + dsb_c, n) != 0) {
+          dsb_viol("fetch-content", "%s: fetched bytes differ from the model", what);
+          break;
+        }
+        dsb_c += n;
+        break;
+      case DSB_FETCH_BE16:
+        {
+          unsigned short v = 0;
+          st               = ares_buf_fetch_be16(buf, &v);
+          if (rem < 2) {
+            dsb_expect_fail(st, what, "fewer than 2 bytes remain");
+            break;
+          }
+          if (st != ARES_SUCCESS || v != (unsigned short)((dsb_A[dsb_c] << 8) | dsb_A[dsb_c + 1])) {
+            dsb_viol("fetch-content", "%s: fetch_be16 gave status %d value 0x%04x", what, (int)st, v);
+            break;
+          }
+          dsb_c += 2;
+          break;
+        }
+      case DSB_FETCH_BE32:
+        {
+          unsigned int v = 0;
+          st             = ares_buf_fetch_be32(buf, &v);
+          if (rem < 4) {
+            dsb_expect_fail(st, what, "fewer than 4 bytes remain");
+            break;
+          }
+          if (st != ARES_SUCCESS || v != (((unsigned int)dsb_A[dsb_c] << 24) | ((unsigned int)dsb_A[dsb_c + 1] << 16) |
+                                          ((unsigned int)dsb_A[dsb_c + 2] << 8) | dsb_A[dsb_c + 3])) {
+            dsb_viol("fetch-content", "%s: fetch_be32 gave status %d value 0x%08x", what, (int)st, v);
+            break;
+          }
+          dsb_c += 4;
+          break;
+        }
+      case DSB_FETCH_DUP:
+        {
+          unsigned char *out = NULL;
+          int            nt  = vh_chance(rng, 1, 2);
+          n  = vh_chance(rng, 1, 5) ? rem + 1 + vh_below(rng, 4) : rem ? 1 + vh_below(rng, (uint32_t)(rem > 200 ? 200 : rem)) : 0;
+          st = ares_buf_fetch_bytes_dup(buf, n, nt ? ARES_TRUE : ARES_FALSE, &out);
+          if (n == 0 || n > rem) {
+            dsb_expect_fail(st, what, "the request does not fit the remaining data");
+            if (st == ARES_SUCCESS) {
+              ares_free(out);
+            }
+            break;
+          }
+          if (st == ARES_ENOMEM) {
+            break;
+          }
+          if (st != ARES_SUCCESS || out == NULL || memcmp(out, dsb_A + dsb_c, n) != 0 || (nt && out[n] != 0)) {
+            dsb_viol("fetch-content", "%s: fetch_bytes_dup(%zu, null_term=%d) status %d or content differs", what, n, nt, (int)st);
+          } else {
+            dsb_c += n;
+          }
+          ares_free(out);
+          break;
+        }
+      case DSB_FETCH_INTO_BUF:
+        {
+          int to_const = vh_chance(rng, 1, 8);
+          n = vh_chance(rng, 1, 5) ? rem + 1 + vh_below(rng, 4) : rem ? 1 + vh_below(rng, (uint32_t)(rem > 100 ? 100 : rem)) : 0;
+          if (to_const) {
+            /* destination that cannot be appended to: must fail and must not consume */
+            static const unsigned char cdata[4] = { 1, 2, 3, 4 };
+            ares_buf_t                *cb       = ares_buf_create_const(cdata, sizeof(cdata));
+            if (cb != NULL) {
+              st = ares_buf_fetch_bytes_into_buf(buf, cb, n);
+              if (st == ARES_SUCCESS) {
+                dsb_viol("const-write", "%s: fetch_bytes_into_buf into a const destination succeeded", what);
+              }
+              ares_buf_destroy(cb);
+            }
+            break;
+          }
+          st = ares_buf_fetch_bytes_into_buf(buf, dest, n);
+          if (n == 0 || n > rem) {
+            dsb_expect_fail(st, what, "the request does not fit the remaining data");
+          } else if (st == ARES_ENOMEM) {
+            break;
+          } else if (st != ARES_SUCCESS) {
+            dsb_viol("fetch-rejected", "%s: fetch_bytes_into_buf of %zu of %zu bytes returned %d", what, n, rem, (int)st);
+          } else {
+            if (dsb_dlen + n < sizeof(dsb_D)) {
+              memcpy(dsb_D + dsb_dlen, dsb_A + dsb_c, n);
+              dsb_dlen += n;
+            }
+            dsb_c += n;
+          }
+          if (!vh_case_viol && dsb_dlen < sizeof(dsb_D) - 200) {
+            size_t               dl = 0;
+            const unsigned char *dp = ares_buf_peek(dest, &dl);
+            if (dl != dsb_dlen || (dl && memcmp(dp, dsb_D, dl) != 0)) {
+              dsb_viol("into-buf-content", "%s: destination holds %zu bytes, model %zu (or content differs)", what, dl, dsb_dlen);
+            }
+          }
+          break;
+        }
+      case DSB_FETCH_STR_DUP:
+        {
+          char *out = NULL;
+          n  = vh_chance(rng, 1, 6) ? rem + 1 + vh_below(rng, 4) : rem ? 1 + vh_below(rng, (uint32_t)(rem > 40 ? 40 : rem)) : 0;
+          st = ares_buf_fetch_str_dup(buf, n, &out);
+          if (n == 0 || n > rem) {
+            dsb_expect_fail(st, what, "the request does not fit the remaining data");
+            if (st == ARES_SUCCESS) {
+              ares_free(out);
+            }
+            break;
+          }
+          if (st == ARES_ENOMEM) {
+            break;
+          }
+          if (!dsb_isprint(dsb_A + dsb_c, n)) {
+            /* validated to be printable: must be refused, cursor stays */
+            if (st == ARES_SUCCESS) {
+              dsb_viol("str-unprintable-accepted", "%s: fetch_str_dup accepted non-printable data", what);
+              ares_free(out);
+            }
+            break;
+          }
+          if (st != ARES_SUCCESS || out == NULL || strlen(out) != n || memcmp(out, dsb_A + dsb_c, n) != 0) {
+            dsb_viol("fetch-content", "%s: fetch_str_dup(%zu) status %d or content differs", what, n, (int)st);
+          } else {
+            dsb_c += n;
+          }
+          ares_free(out);
+          break;
+        }
+      case DSB_CONSUME:
+        n  = vh_chance(rng, 1, 5) ? rem + 1 + vh_below(rng, 4) : vh_below(rng, (uint32_t)(rem > 80 ? 80 : rem) + 1);
+        st = ares_buf_consume(buf, n);
+        if (n > rem) {
+          dsb_expect_fail(st, what, "more bytes were to be consumed than remain");
+          break;
+        }
+        if (st != ARES_SUCCESS) {
+          dsb_viol("fetch-rejected", "%s: consume(%zu) with %zu remaining returned %d", what, n, rem, (int)st);
+          break;
+        }
+        dsb_c += n;
+        break;
+      case DSB_PEEK_BYTE:
+        {
+          unsigned char b = 0;
+          st              = ares_buf_peek_byte(buf, &b);
+          if (rem == 0) {
+            dsb_expect_fail(st, what, "nothing remains");
+          } else if (st != ARES_SUCCESS || b != dsb_A[dsb_c]) {
+            dsb_viol("fetch-content", "%s: peek_byte status %d byte 0x%02x model 0x%02x", what, (int)st, b, dsb_A[dsb_c]);
+          }
+          break;
+        }
+      case DSB_TAG:
+        ares_buf_tag(buf);
+        dsb_t = (long)dsb_c;
+        vh_count("buf_tags");
+        break;
+      case DSB_TAG_ROLLBACK:
+        st = ares_buf_tag_rollback(buf);
+        if (dsb_t < 0) {
+          dsb_expect_fail(st, what, "no tag is set");
+          break;
+        }
+        if (st != ARES_SUCCESS) {
+          dsb_viol("tag-rejected", "%s: tag_rollback with a tag set returned %d", what, (int)st);
+          break;
+        }
+        dsb_c = (size_t)dsb_t;
+        dsb_t = -1;
+        vh_count("buf_rollbacks");
+        break;
+      case DSB_TAG_CLEAR:
+        st = ares_buf_tag_clear(buf);
+        if (dsb_t < 0) {
+          dsb_expect_fail(st, what, "no tag is set");
+          break;
+        }
+        if (st != ARES_SUCCESS) {
+          dsb_viol("tag-rejected", "%s: tag_clear with a tag set returned %d", what, (int)st);
+          break;
+        }
+        dsb_t = -1;
+        break;
+      case DSB_TAG_FETCH_BYTES:
+        {
+          size_t tl    = dsb_t >= 0 ? dsb_c - (size_t)dsb_t : 0;
+          int    small = tl > 0 && vh_chance(rng, 1, 3);
+          size_t room  = small ? (size_t)vh_below(rng, (uint32_t)tl) : tl + vh_below(rng, 8);
+          size_t io    = room;
+          /* exact-size destination so that an over-long copy is an ASan report */
+          unsigned char *d = (unsigned char *)malloc(room ? room : 1);
+          if (d == NULL) {
+            break;
+          }
+          st = ares_buf_tag_fetch_bytes(buf, d, &io);
+          if (dsb_t < 0) {
+            dsb_expect_fail(st, what, "no tag is set");
+          } else if (small) {
+            dsb_expect_fail(st, what, "the destination is smaller than the tagged data");
+          } else if (tl == 0 && !dsb_allocated && !dsb_const) {
+            /* no storage yet: the zero-length region has no address, failure is an acceptable answer */
+          } else if (st != ARES_SUCCESS || io != tl || (tl && memcmp(d, dsb_A + dsb_t, tl) != 0)) {
+            dsb_viol("tag-content", "%s: tag_fetch_bytes status %d len %zu model %zu (or content differs)", what, (int)st, io, tl);
+          }
+          free(d);
+          break;
+        }
+      case DSB_TAG_FETCH_STRING:
+        {
+          size_t tl    = dsb_t >= 0 ? dsb_c - (size_t)dsb_t : 0;
+          int    small = vh_chance(rng, 1, 3);
+          size_t room  = small ? (size_t)vh_below(rng, (uint32_t)tl + 1) : tl + 1 + vh_below(rng, 8);
+          char  *d     = (char *)malloc(room ? room : 1);
+          if (d == NULL) {
+            break;
+          }
+          st = ares_buf_tag_fetch_string(buf, d, room);
+          if (dsb_t < 0) {
+            dsb_expect_fail(st, what, "no tag is set");
+          } else if (small) {
+            /* needs tl bytes plus the terminator */
+            dsb_expect_fail(st, what, "the destination cannot hold the tagged data and a terminator");
+          } else if (tl == 0 && !dsb_allocated && !dsb_const) {
+            /* no storage yet, see tag_fetch_bytes */
+          } else if (!dsb_isprint(dsb_A + dsb_t, tl)) {
+            dsb_expect_fail(st, what, "the tagged data is not printable ASCII");
+          } else if (st != ARES_SUCCESS || strlen(d) != tl || memcmp(d, dsb_A + dsb_t, tl) != 0) {
+            dsb_viol("tag-content", "%s: tag_fetch_string status %d or content differs (tag len %zu)", what, (int)st, tl);
+          }
+          free(d);
+          break;
+        }
+      case DSB_TAG_FETCH_STRDUP:
+        {
+          size_t tl  = dsb_t >= 0 ? dsb_c - (size_t)dsb_t : 0;
+          char  *out = NULL;
+          st         = ares_buf_tag_fetch_strdup(buf, &out);
+          if (st == ARES_ENOMEM) {
+            break;
+          }
+          if (dsb_t < 0) {
+            dsb_expect_fail(st, what, "no tag is set");
+          } else if (tl == 0 && !dsb_allocated && !dsb_const) {
+            /* no storage yet, see tag_fetch_bytes */
+          } else if (!dsb_isprint(dsb_A + dsb_t, tl)) {
+            dsb_expect_fail(st, what, "the tagged data is not printable ASCII");
+          } else if (st != ARES_SUCCESS || out == NULL || strlen(out) != tl || memcmp(out, dsb_A + dsb_t, tl) != 0) {
+            dsb_viol("tag-content", "%s: tag_fetch_strdup status %d or content differs (tag len %zu)", what, (int)st, tl);
+          }
+          if (st == ARES_SUCCESS) {
+            ares_free(out);
+          }
+          break;
+        }
+      case DSB_TAG_FETCH_CONSTBUF:
+        {
+          size_t      tl = dsb_t >= 0 ? dsb_c - (size_t)dsb_t : 0;
+          ares_buf_t *nb = NULL;
+          st             = ares_buf_tag_fetch_constbuf(buf, &nb);
+          if (dsb_t < 0) {
+            dsb_expect_fail(st, what, "no tag is set");
+          } else if (tl == 0) {
+            /* a const buffer of zero length cannot exist; either answer is acceptable */
+          } else if (st == ARES_ENOMEM) {
+            break;
+          } else {
+            size_t               l2 = 0;
+            const unsigned char *p2 = nb ? ares_buf_peek(nb, &l2) : NULL;
+            if (st != ARES_SUCCESS || nb == NULL || l2 != tl || memcmp(p2, dsb_A + dsb_t, tl) != 0) {
+              dsb_viol("tag-content", "%s: tag_fetch_constbuf status %d or content differs (tag len %zu)", what, (int)st, tl);
+            }
+          }
+          if (st == ARES_SUCCESS) {
+            ares_buf_destroy(nb);
+          }
+          break;
+        }
+      case DSB_SET_LENGTH:
+        {
+          int bad = vh_chance(rng, 1, 6);
+          n       = bad ? ((size_t)-1) / 2 - vh_below(rng, 100) : vh_below(rng, (uint32_t)rem + 1);
+          st      = ares_buf_set_length(buf, n);
+          if (dsb_const) {
+            dsb_write_status(st, what);
+            break;
+          }
+          if (bad) {
+            dsb_expect_fail(st, what, "the length is far beyond any allocation");
+            break;
+          }
+          if (!dsb_allocated && st != ARES_SUCCESS) {
+            break; /* nothing allocated yet: the documented precondition (len within the allocation) cannot hold */
+          }
+          if (st != ARES_SUCCESS) {
+            dsb_viol("write-rejected", "%s: set_length(%zu) within the current length %zu returned %d", what, n, rem, (int)st);
+            break;
+          }
+          dsb_alen = dsb_c + n;
+          vh_count("buf_set_length");
+          break;
+        }
+      case DSB_SET_POSITION:
+        {
+          size_t phys_len = dsb_alen - dsb_base;
+          int    bad      = vh_chance(rng, 1, 5);
+          size_t lo       = dsb_t >= 0 ? (size_t)dsb_t - dsb_base : 0; /* stay at or after an active tag */
+          size_t idx      = bad ? phys_len + 1 + vh_below(rng, 5) : lo + vh_below(rng, (uint32_t)(phys_len - lo) + 1);
+          st              = ares_buf_set_position(buf, idx);
+          if (bad) {
+            dsb_expect_fail(st, what, "the index is beyond the data");
+            break;
+          }
+          if (st != ARES_SUCCESS) {
+            dsb_viol("position-rejected", "%s: set_position(%zu) with %zu bytes of data returned %d", what, idx, phys_len,
+                     (int)st);
+            break;
+          }
+          dsb_c = dsb_base + idx;
+          vh_count("buf_set_position");
+          break;
+        }
+      case DSB_EXCURSION:
+        {
+          /* what name decompression does: remember the position, jump elsewhere, read, come back */
+          size_t phys_len = dsb_alen - dsb_base;
+          size_t save     = ares_buf_get_position(buf);
+          size_t idx      = vh_below(rng, (uint32_t)phys_len + 1);
+          size_t avail    = phys_len - idx;
+          if (ares_buf_set_position(buf, idx) != ARES_SUCCESS) {
+            dsb_viol("position-rejected", "%s: set_position(%zu) with %zu bytes of data failed", what, idx, phys_len);
+            break;
+          }
+          n = avail ? 1 + vh_below(rng, (uint32_t)(avail > 32 ? 32 : avail)) : 0;
+          if (n) {
+            st = ares_buf_fetch_bytes(buf, tmp, n);
+            if (st != ARES_SUCCESS || memcmp(tmp, dsb_A + dsb_base + idx, n) != 0) {
+              dsb_viol("fetch-content", "%s: bytes read at position %zu differ from the model (status %d)", what, idx, (int)st);
+            }
+          } else {
+            unsigned char b;
+            if (ares_buf_fetch_bytes(buf, &b, 1) == ARES_SUCCESS) {
+              dsb_viol("overrun-accepted", "%s: fetch at the end position succeeded", what);
+            }
+          }
+          if (ares_buf_set_position(buf, save) != ARES_SUCCESS) {
+            dsb_viol("position-rejected", "%s: restoring position %zu failed", what, save);
+          }
+          break;
+        }
+      case DSB_RECLAIM:
+        ares_buf_reclaim(buf);
+        if (!dsb_const && dsb_allocated) {
+          /* documented: discards everything before the cursor, or before the tag when one is active */
+          size_t wantbase = (dsb_t >= 0 && (size_t)dsb_t < dsb_c) ? (size_t)dsb_t : dsb_c;
+          size_t pos      = ares_buf_get_position(buf);
+          if (pos <= dsb_c && dsb_c - pos != wantbase) {
+            dsb_viol("reclaim", "%s: after reclaim the position is %zu, model expects %zu", what, pos, dsb_c - wantbase);
+          }
+          vh_count("buf_reclaim_explicit");
+        }
+        break;
+      case DSB_CONSUME_WS:
+      case DSB_CONSUME_NONWS:
+      case DSB_CONSUME_LINE:
+        {
+          int    lf = vh_chance(rng, 1, 2);
+          size_t got, want = 0;
+          if (op == DSB_CONSUME_WS) {
+            while (want < rem && dsb_is_ws(dsb_A[dsb_c + want], lf)) {
+              want++;
+            }
+            got = ares_buf_consume_whitespace(buf, lf ? ARES_TRUE : ARES_FALSE);
+          } else if (op == DSB_CONSUME_NONWS) {
+            while (want < rem && !dsb_is_ws(dsb_A[dsb_c + want], 1)) {
+              want++;
+            }
+            got = ares_buf_consume_nonwhitespace(buf);
+          } else {
+            while (want < rem && dsb_A[dsb_c + want] != '\n') {
+              want++;
+            }
+            if (lf && want < rem) {
+              want++;
+            }
+            got = ares_buf_consume_line(buf, lf ? ARES_TRUE : ARES_FALSE);
+          }
+          if (got != want) {
+            dsb_viol("consume-count", "%s: consumed %zu, reference %zu (include_linefeed=%d)", what, got, want, lf);
+            break;
+          }
+          dsb_c += want;
+          break;
+        }
+      case DSB_CONSUME_CHARSET:
+      case DSB_CONSUME_UNTIL_CHARSET:
+        {
+          static const char *const sets[] = { " ", ",", "\n", ",;", " \t\r\n", "abcde", "0123456789", "XYZ=/" };
+          const char              *set    = sets[vh_below(rng, 8)];
+          size_t                   sl     = strlen(set);
+          size_t                   got, want = 0;
+          int                      require = vh_chance(rng, 1, 2);
+          if (op == DSB_CONSUME_CHARSET) {
+            while (want < rem && memchr(set, dsb_A[dsb_c + want], sl) != NULL) {
+              want++;
+            }
+            got = ares_buf_consume_charset(buf, (const unsigned char *)set, sl);
+          } else {
+            while (want < rem && memchr(set, dsb_A[dsb_c + want], sl) == NULL) {
+              want++;
+            }
+            if (require && want == rem) {
+              want = SIZE_MAX; /* not found: reports SIZE_MAX and consumes nothing */
+            }
+            if (rem == 0) {
+              want = 0; /* an empty buffer yields 0 whatever is asked */
+            }
+            got = ares_buf_consume_until_charset(buf, (const unsigned char *)set, sl, require ? ARES_TRUE : ARES_FALSE);
+          }
+          if (got != want) {
+            dsb_viol("consume-count", "%s: consumed %zu, reference %zu (set '%s' require=%d)", what, got, want, set, require);
+            break;
+          }
+          if (want != SIZE_MAX) {
+            dsb_c += want;
+          }
+          break;
+        }
+      case DSB_CONSUME_UNTIL_SEQ:
+        {
+          size_t got, want = 0, sl;
+          int    require = vh_chance(rng, 1, 2);
+          int    found   = 0;
+          /* take the sequence from the data ahead (so that it is often present) or make one up */
+          if (rem >= 2 && vh_chance(rng, 2, 3)) {
+            size_t at = vh_below(rng, (uint32_t)rem - 1);
+            sl        = 1 + vh_below(rng, (uint32_t)((rem - at) > 4 ? 4 : (rem - at)));
+            memcpy(tmp, dsb_A + dsb_c + at, sl);
+          } else {
+            sl = (size_t)vh_range(rng, 1, 3);
+            for (k = 0; k < sl; k++) {
+              tmp[k] = dsb_byte(rng);
+            }
+          }
+          for (want = 0; want + sl <= rem; want++) {
+            if (memcmp(dsb_A + dsb_c + want, tmp, sl) == 0) {
+              found = 1;
+              break;
+            }
+          }
+          if (!found) {
+            want = require ? SIZE_MAX : rem;
+          }
+          if (rem == 0) {
+            want = 0;
+          }
+          got = ares_buf_consume_until_seq(buf, tmp, sl, require ? ARES_TRUE : ARES_FALSE);
+          if (got != want) {
+            dsb_viol("consume-count", "%s: consume_until_seq consumed %zu, reference %zu (seq len %zu require=%d)", what, got,
+                     want, sl, require);
+            break;
+          }
+          if (want != SIZE_MAX) {
+            dsb_c += want;
+          }
+          break;
+        }
+      case DSB_BEGINS_WITH:
+        {
+          ares_bool_t got;
+          int         want;
+          n = (size_t)vh_range(rng, 1, 6);
+          if (rem >= n && vh_chance(rng, 2, 3)) {
+            memcpy(tmp, dsb_A + dsb_c, n);
+            if (vh_chance(rng, 1, 4)) {
+              tmp[n - 1] ^= 0x20;
+            }
+          } else {
+            for (k = 0; k < n; k++) {
+              tmp[k] = dsb_byte(rng);
+            }
+          }
+          want = n <= rem && memcmp(tmp, dsb_A + dsb_c, n) == 0;
+          got  = ares_buf_begins_with(buf, tmp, n);
+          if ((got == ARES_TRUE) != want) {
+            dsb_viol("begins-with", "%s: begins_with(%zu bytes) answered %d, reference %d", what, n, (int)got, want);
+          }
+          break;
+        }
+      case DSB_SPLIT_COPY:
+        {
+          /* split a const buffer laid over an exact-size copy of the unread data */
+          size_t         take = rem > 600 ? 600 : rem;
+          unsigned char *copy;
+          ares_buf_t    *cb;
+          if (take == 0) {
+            break;
+          }
+          copy = (unsigned char *)malloc(take);
+          if (copy == NULL) {
+            break;
+          }
+          memcpy(copy, dsb_A + dsb_c, take);
+          cb = ares_buf_create_const(copy, take);
+          if (cb != NULL) {
+            dsb_do_split(cb, copy, take, rng, what);
+            ares_buf_destroy(cb);
+          }
+          free(copy);
+          break;
+        }
+      case DSB_SPLIT_SELF:
+        {
+          /* splitting the buffer itself consumes it to the end; what it leaves as tag is not specified,
+           * so the tag is cleared on both sides afterwards */
+          size_t before = vh_case_viol;
+          if (rem > 3000) {
+            break;
+          }
+          memcpy(tmp, dsb_A + dsb_c, rem);
+          dsb_do_split(buf, tmp, rem, rng, what);
+          if ((size_t)vh_case_viol != before) {
+            break;
+          }
+          if (ares_buf_len(buf) == 0) {
+            dsb_c = dsb_alen;
+          }
+          (void)ares_buf_tag_clear(buf);
+          dsb_t = -1;
+          break;
+        }
+      case DSB_REPLACE:
+        {
+          size_t sl, rl, out = 0, at;
+          unsigned char srch[8], rplc[16];
+          static unsigned char tail[DSB_MAX + 4096];
+          if (rem > 4000) {
+            break;
+          }
+          if (rem >= 1 && vh_chance(rng, 3, 4)) {
+            at = vh_below(rng, (uint32_t)rem);
+            sl = 1 + vh_below(rng, (uint32_t)((rem - at) > 3 ? 3 : (rem - at)));
+            memcpy(srch, dsb_A + dsb_c + at, sl);
+          } else {
+            sl = (size_t)vh_range(rng, 1, 3);
+            for (k = 0; k < sl; k++) {
+              srch[k] = dsb_byte(rng);
+            }
+          }
+          rl = vh_below(rng, 9);
+          for (k = 0; k < rl; k++) {
+            rplc[k] = dsb_byte(rng);
+          }
+          st = ares_buf_replace(buf, srch, sl, rl ? rplc : NULL, rl);
+          if (dsb_const || !dsb_allocated) {
+            if (dsb_const) {
+              dsb_write_status(st, what);
+            }
+            break;
+          }
+          if (st == ARES_ENOMEM) {
+            vh_inconclusive("oom");
+            goto cleanup;
+          }
+          if (st != ARES_SUCCESS) {
+            dsb_viol("write-rejected", "%s: replace returned %d", what, (int)st);
+            break;
+          }
+          /* reference: left to right, non-overlapping, replacement text is not rescanned */
+          for (at = 0; at < rem;) {
+            if (at + sl <= rem && memcmp(dsb_A + dsb_c + at, srch, sl) == 0) {
+              memcpy(tail + out, rplc, rl);
+              out += rl;
+              at += sl;
+            } else {
+              tail[out++] = dsb_A[dsb_c + at++];
+            }
+            if (out > DSB_MAX - 30000) {
+              break;
+            }
+          }
+          if (at < rem) {
+            vh_inconclusive("replace-too-large");
+            goto cleanup;
+          }
+          memcpy(dsb_A + dsb_c, tail, out);
+          dsb_alen = dsb_c + out;
+          vh_count("buf_replace");
+          break;
+        }
+      default:
+        break;
+    }
+    if (!vh_case_viol) {
+      dsb_sync(buf, what);
+    }
+    if (op >= DSB_FETCH_BYTES && op <= DSB_CONSUME && dsb_c > 0) {
+      ds_removals++; /* something was consumed at some point: the case exercises "minus those consumed" */
+    }
+  }
+
+  /* ---- end of life: finish_bin / finish_str / destroy ---- */
+  if (!vh_case_viol && buf != NULL) {
+    int how = vh_range(rng, 0, 2);
+    OP(DSB_FINISH);
+    dsb_site = "finish";
+    if (dsb_t >= 0 && vh_chance(rng, 1, 2)) {
+      ares_buf_tag_clear(buf);
+      dsb_t = -1;
+    }
+    if (how < 2) {
+      size_t         flen = 4242;
+      unsigned char *out  = how == 0 ? ares_buf_finish_bin(buf, &flen) : (unsigned char *)ares_buf_finish_str(buf, &flen);
+      if (dsb_const) {
+        if (out != NULL) {
+          dsb_viol("const-write", "finish on a const buffer returned data");
+        }
+        /* still ours */
+      } else if (out == NULL) {
+        /* only out of memory can refuse; the buffer is then still ours */
+        vh_inconclusive("finish-refused");
+      } else {
+        size_t rem  = dsb_alen - dsb_c;
+        size_t trem = dsb_t >= 0 ? dsb_alen - (size_t)dsb_t : rem;
+        buf         = NULL; /* consumed by finish */
+        /* with an active tag, reclaim defines the unprocessed data as starting at the tag */
+        if (flen == rem && (rem == 0 || memcmp(out, dsb_A + dsb_c, rem) == 0)) {
+          /* ok */
+        } else if (dsb_t >= 0 && flen == trem && memcmp(out, dsb_A + dsb_t, trem) == 0) {
+          vh_count("buf_finish_from_tag");
+        } else {
+          dsb_viol("finish-content", "finish_%s returned %zu bytes, model has %zu unread (alen %zu cursor %zu tag %ld)",
+                   how == 0 ? "bin" : "str", flen, rem, dsb_alen, dsb_c, dsb_t);
+        }
+        if (how == 1 && !vh_case_viol && out[flen] != 0) {
+          dsb_viol("finish-content", "finish_str result is not NUL terminated at its length %zu", flen);
+        }
+        ares_free(out);
+        vh_count(how == 0 ? "buf_finish_bin" : "buf_finish_str");
+      }
+    }
+  }
+
+cleanup:
+  ares_buf_destroy(buf);
+  ares_buf_destroy(dest);
+  free(constmem);
+  if (sb.b) {
+    vh_sb_printf(&sb, "],\"nops\":%d,\"appended\":%zu,\"consumed\":%zu}", ds_nops, dsb_alen, dsb_c);
+    vh_sample(sb.b);
+    free(sb.b);
+  }
+}
